@@ -7,6 +7,14 @@ XML = '''<?xml version="1.0" encoding="utf-8"?>
 <template><name>T</name><location id="id0"><label kind="invariant">%s</label></location><location id="id1"/><init ref="id0"/>
 <transition><source ref="id0"/><target ref="id1"/><label kind="guard">%s</label></transition></template>
 <system>system T;</system></nta>'''
+# the same guard on the other kinds of edges: one that leaves a branchpoint, and an uncontrollable edge with a select and a synchronisation
+XML_B = '''<?xml version="1.0" encoding="utf-8"?>
+<nta><declaration>clock x, y; int i, j; double d, e; bool b, c; chan ch;</declaration>
+<template><name>T</name><location id="id0"/><location id="id1"/><branchpoint id="id2"/><init ref="id0"/>
+<transition><source ref="id0"/><target ref="id2"/></transition>
+<transition><source ref="id2"/><target ref="id1"/><label kind="guard">%s</label><label kind="probability">2</label></transition>
+<transition controllable="false"><source ref="id1"/><target ref="id0"/><label kind="select">s : int[0,1]</label><label kind="guard">%s</label><label kind="synchronisation">ch!</label></transition></template>
+<system>system T;</system></nta>'''
 RELS = {'lt': '<', 'le': '<=', 'ge': '>=', 'gt': '>', 'eq': '==', 'neq': '!='}
 OPND = {'i': ['i', '3', 'j + 1'], 'd': ['d', '1.5'], 'x': ['x', 'y'], 'xy': ['x - y', 'y - x']}
 
@@ -126,20 +134,22 @@ def check(run):
     for k, t in enumerate(texts):
         j.case('g%d' % k).model('xml', XML % ('true', esc(t))).dump('errors').end()
         j.case('i%d' % k).model('xml', XML % (esc(t), 'true')).dump('errors').end()
+        j.case('b%d' % k).model('xml', XML_B % (esc(t), 'true')).dump('errors').end()
+        j.case('u%d' % k).model('xml', XML_B % ('true', esc(t))).dump('errors').end()
     rr = vlib.run_jobs(j)
     fmism, nacc, nrej, nknown = [], 0, 0, 0
     samples = []
     for k, (f, t, m) in enumerate(zip(forms, texts, model)):
         res = {}
-        for pos in 'gi':
+        for pos in 'gibu':
             c = rr['%s%d' % (pos, k)]
             if c['status'] != 'ok' or len(c['cmds']) < 2:
-                run.fail('parser/type checker crashed on %s %r' % ('guard' if pos == 'g' else 'invariant', t), dict(text=t, status=c['status']), shape='crash')
+                run.fail('parser/type checker crashed on %s %r' % ('invariant' if pos == 'i' else 'guard', t), dict(text=t, status=c['status']), shape='crash')
                 res[pos] = None
                 continue
             errs = [l.split('msg="')[1].split('"')[0] for l in c['cmds'][1][2] if l.startswith('error')]
             res[pos] = (len(errs) == 0, errs)
-        for pos, flag, what in (('g', m['guard'], 'guard'), ('i', m['inv'], 'invariant')):
+        for pos, flag, what in (('g', m['guard'], 'guard'), ('i', m['inv'], 'invariant'), ('b', m['guard'], 'guard of an edge leaving a branchpoint'), ('u', m['guard'], 'guard of an uncontrollable edge')):
             if res[pos] is None:
                 continue
             ok, errs = res[pos]
